@@ -66,6 +66,7 @@ type Case struct {
 	CompactionS int64     `json:"compaction_interval_s"`
 	Keys        [][]byte  `json:"keys"`
 	Clients     [][]Op    `json:"clients"`
+	Rounds      int       `json:"rounds"` // the scripts are cut into this many equal parts; after each part: quiescent read, close, reopen, read
 	Maint       []MaintOp `json:"maint,omitempty"`
 	Groups      []string  `json:"groups"`                // hook site groups the plan applies to
 	Plan        []uint16  `json:"plan"`                  // consumed cyclically: 0 nothing, 1 Gosched, n >= 10 sleep n microseconds
@@ -191,8 +192,11 @@ func genCase(t *rapid.T) Case {
 		kinds = append(kinds, "del", "del")
 	}
 	thinks := []uint8{0, 0, 0, 0, 0, 0, 1, 1, 2, 3}
+	// all scripts have the same length so that the clients stop at about the same time: the last
+	// writes of a part, the ones the reads after the reopen can tell apart, are then concurrent ones
+	n := rapid.IntRange(30, 300).Draw(t, "nops")
+	c.Rounds = rapid.SampledFrom([]int{1, 2, 2, 3, 4, 6}).Draw(t, "rounds")
 	for cl := 0; cl < ncl; cl++ {
-		n := rapid.IntRange(30, 300).Draw(t, "nops")
 		ops := make([]Op, n)
 		for i := range ops {
 			o := Op{Op: rapid.SampledFrom(kinds).Draw(t, "op"), K: rapid.IntRange(0, nk-1).Draw(t, "k"),
@@ -259,8 +263,7 @@ func openEngine(dir string, c *Case) (*engine.EngineFacade, error) {
 	return engine.NewEngineFacade(dir)
 }
 
-func errClass(err error) string {
-	s := err.Error()
+func errClass(s string) string {
 	for _, m := range []string{"WAL is rotating", "WAL is closed", "after 3 retries", "storage is closed", "engine is closed", "read-only"} {
 		if strings.Contains(s, m) {
 			return m
@@ -290,7 +293,11 @@ func runCase(c *Case) ([]Rec, *Stats, *Verdict) {
 		enabled[g] = true
 	}
 	var inflight, planCtr, rotN, stalls, rot, fl, rotL, flL atomic.Int64
+	var hooksOn atomic.Bool
 	verifhook.Set(func(site string) {
+		if !hooksOn.Load() {
+			return
+		}
 		switch site {
 		case "storage.rotate.after_close":
 			rot.Add(1)
@@ -323,121 +330,80 @@ func runCase(c *Case) ([]Rec, *Stats, *Verdict) {
 	base := time.Now()
 	now := func() int64 { return int64(time.Since(base)) }
 	errKeys := make([]atomic.Bool, len(c.Keys))
-	var converted atomic.Int64
+	var converted, maintErrs atomic.Int64
 	var errMu sync.Mutex
-	hist := make([][]Rec, len(c.Clients))
-	start := make(chan struct{})
-	var wg sync.WaitGroup
-	for cl := range c.Clients {
-		wg.Add(1)
-		go func(cl int) {
-			defer wg.Done()
-			recs := make([]Rec, 0, len(c.Clients[cl]))
-			<-start
-			for i, o := range c.Clients[cl] {
-				switch o.Think {
-				case 1:
-					runtime.Gosched()
-				case 2:
-					time.Sleep(20 * time.Microsecond)
-				case 3:
-					time.Sleep(200 * time.Microsecond)
-				}
-				kind := o.Op
-				if kind != "get" && errKeys[o.K].Load() {
-					// after a write error on this key the remaining writes to it become reads,
-					// so that a failed write that did reach the log stays the newest record of its key
-					kind = "get"
-					converted.Add(1)
-				}
-				r := Rec{C: cl, I: i, Op: kind, K: o.K}
-				key := c.Keys[o.K]
-				switch kind {
-				case "put":
-					r.W = valueID(cl, i)
-					val := valueBytes(r.W, o.Len)
-					inflight.Add(1)
-					r.Call = now()
-					err := e.Put(key, val)
-					r.Ret = now()
-					inflight.Add(-1)
-					if err != nil {
-						r.Err = err.Error()
-					}
-				case "del":
-					inflight.Add(1)
-					r.Call = now()
-					err := e.Delete(key)
-					r.Ret = now()
-					inflight.Add(-1)
-					if err != nil {
-						r.Err = err.Error()
-					}
-				default:
-					inflight.Add(1)
-					r.Call = now()
-					v, err := e.Get(key)
-					r.Ret = now()
-					inflight.Add(-1)
-					switch {
-					case err == nil:
-						r.R = c.decode(v)
-					case drive.IsNotFound(err):
-						r.R = 0
-					default:
-						r.Err = err.Error()
-					}
-				}
-				if r.Err != "" && kind != "get" {
-					errKeys[o.K].Store(true)
-					errMu.Lock()
-					st.WriteErrors[errClass(fmt.Errorf("%s", r.Err))]++
-					errMu.Unlock()
-				}
-				recs = append(recs, r)
-			}
-			hist[cl] = recs
-		}(cl)
-	}
-	var done atomic.Bool
-	var mwg sync.WaitGroup
-	var maintErrs atomic.Int64
-	if len(c.Maint) > 0 {
-		mwg.Add(1)
-		go func() {
-			defer mwg.Done()
-			<-start
-			for _, m := range c.Maint {
-				if done.Load() {
-					return
-				}
-				if m.PauseUs > 0 {
-					time.Sleep(time.Duration(m.PauseUs) * time.Microsecond)
-				}
-				var err error
-				if m.Op == "flush" {
-					err = e.FlushImMemTables()
-				} else {
-					err = e.TriggerCompaction()
-				}
-				if err != nil {
-					maintErrs.Add(1)
-				}
-			}
-		}()
-	}
-	close(start)
-	wg.Wait()
-	done.Store(true)
-	mwg.Wait()
-
 	var all []Rec
-	for _, h := range hist {
-		all = append(all, h...)
+
+	client := func(e *engine.EngineFacade, cl, from, to int) []Rec {
+		recs := make([]Rec, 0, to-from)
+		for i := from; i < to; i++ {
+			o := c.Clients[cl][i]
+			switch o.Think {
+			case 1:
+				runtime.Gosched()
+			case 2:
+				time.Sleep(20 * time.Microsecond)
+			case 3:
+				time.Sleep(200 * time.Microsecond)
+			}
+			kind := o.Op
+			if kind != "get" && errKeys[o.K].Load() {
+				// after a write error on this key the remaining writes to it become reads, so that
+				// a failed write that did reach the log stays the newest record of its key
+				kind = "get"
+				converted.Add(1)
+			}
+			r := Rec{C: cl, I: i, Op: kind, K: o.K}
+			key := c.Keys[o.K]
+			switch kind {
+			case "put":
+				r.W = valueID(cl, i)
+				val := valueBytes(r.W, o.Len)
+				inflight.Add(1)
+				r.Call = now()
+				err := e.Put(key, val)
+				r.Ret = now()
+				inflight.Add(-1)
+				if err != nil {
+					r.Err = err.Error()
+				}
+			case "del":
+				inflight.Add(1)
+				r.Call = now()
+				err := e.Delete(key)
+				r.Ret = now()
+				inflight.Add(-1)
+				if err != nil {
+					r.Err = err.Error()
+				}
+			default:
+				inflight.Add(1)
+				r.Call = now()
+				v, err := e.Get(key)
+				r.Ret = now()
+				inflight.Add(-1)
+				switch {
+				case err == nil:
+					r.R = c.decode(v)
+				case drive.IsNotFound(err):
+					r.R = 0
+				default:
+					r.Err = err.Error()
+				}
+			}
+			if r.Err != "" && kind != "get" {
+				errKeys[o.K].Store(true)
+				errMu.Lock()
+				st.WriteErrors[errClass(r.Err)]++
+				errMu.Unlock()
+			}
+			recs = append(recs, r)
+		}
+		return recs
 	}
-	readAll := func(e *engine.EngineFacade, pseudo int) {
+	readAll := func(e *engine.EngineFacade, pseudo, round int) {
 		for k, key := range c.Keys {
-			r := Rec{C: pseudo, I: k, Op: "get", K: k}
+			r := Rec{C: pseudo, I: round*100 + k, Op: "get", K: k}
 			r.Call = now()
 			v, err := e.Get(key)
 			r.Ret = now()
@@ -451,23 +417,74 @@ func runCase(c *Case) ([]Rec, *Stats, *Verdict) {
 			all = append(all, r)
 		}
 	}
-	// quiescent read: no client call is in flight any more (the background flush may still run)
-	readAll(e, -1)
+
+	rounds := max(c.Rounds, 1)
+	for round := 0; round < rounds; round++ {
+		hist := make([][]Rec, len(c.Clients))
+		start := make(chan struct{})
+		var wg, mwg sync.WaitGroup
+		var done atomic.Bool
+		for cl := range c.Clients {
+			n := len(c.Clients[cl])
+			from, to := n*round/rounds, n*(round+1)/rounds
+			wg.Add(1)
+			go func(cl int) {
+				defer wg.Done()
+				<-start
+				hist[cl] = client(e, cl, from, to)
+			}(cl)
+		}
+		if nm := len(c.Maint); nm > 0 {
+			maint := c.Maint[nm*round/rounds : nm*(round+1)/rounds]
+			mwg.Add(1)
+			go func() {
+				defer mwg.Done()
+				<-start
+				for _, m := range maint {
+					if done.Load() {
+						return
+					}
+					if m.PauseUs > 0 {
+						time.Sleep(time.Duration(m.PauseUs) * time.Microsecond)
+					}
+					var err error
+					if m.Op == "flush" {
+						err = e.FlushImMemTables()
+					} else {
+						err = e.TriggerCompaction()
+					}
+					if err != nil {
+						maintErrs.Add(1)
+					}
+				}
+			}()
+		}
+		hooksOn.Store(true)
+		close(start)
+		wg.Wait()
+		done.Store(true)
+		mwg.Wait()
+		for _, h := range hist {
+			all = append(all, h...)
+		}
+		// quiescent read: no client call is in flight any more (the background flush may still run)
+		readAll(e, -1, round)
+		// close (nothing of ours is using the engine; the background flush is idle) and reopen
+		drive.Quiesce(e)
+		hooksOn.Store(false)
+		_ = e.Close()
+		e, err = engine.NewEngineFacade(dir)
+		if err != nil {
+			return all, st, &Verdict{Sig: "reopen-open-error", Msg: "reopen after a clean close failed: " + err.Error()}
+		}
+		readAll(e, -2, round)
+	}
+	_ = e.Close()
 	st.Rotations, st.Flushes = int(rot.Load()), int(fl.Load())
 	st.RotationsLoaded, st.FlushesLoaded = int(rotL.Load()), int(flL.Load())
 	st.Stalls = int(min(stalls.Load(), 3))
 	st.Converted = int(converted.Load())
 	st.MaintErrors = int(maintErrs.Load())
-	// close (nothing of ours is using the engine) and reopen
-	drive.Quiesce(e)
-	verifhook.Reset()
-	_ = e.Close()
-	e2, err := engine.NewEngineFacade(dir)
-	if err != nil {
-		return all, st, &Verdict{Sig: "reopen-open-error", Msg: "reopen after a clean close failed: " + err.Error()}
-	}
-	readAll(e2, -2)
-	_ = e2.Close()
 	return all, st, nil
 }
 
@@ -514,6 +531,9 @@ func classify(c *Case, st *Stats) (bool, []string) {
 	}
 	if len(c.Clients) >= 4 {
 		cl = append(cl, "clients>=4")
+	}
+	if c.Rounds >= 2 {
+		cl = append(cl, "reopen_between_parts")
 	}
 	if len(c.Maint) > 0 {
 		cl = append(cl, "maintenance_goroutine")
